@@ -9,8 +9,8 @@ func init() {
 			{Pkg: "codec", Harness: "maporder", Weight: 3, Note: "two Encode and two JSONEncode calls per run under different simulator-chosen map iteration orders; decode / JSON round trip as workload"},
 		},
 		QuickS: 30, ThoroughS: 600,
-		Rule: "stream: each run picks ONE helper family (Read[T] for the 12 scalar/array types, ReadBytes, ReadBytesWithSize x4 prefix widths, ReadObject, ReadObjectWithSize x3, ReadCollection x4 and PeekSize+ReadCollection x4 with Read[uint16|uint64] elements, ReadObjectFromReader, or the ByteBuffer Write/Seek model) and 1-3 values; byte payloads and objects are serix encodings of values drawn from a 14-type zoo (scalars incl. floats/NaN, strings and byte slices with uint8/16/32 prefixes and bounds, byte arrays with and without type code, big.Int, time.Time, embedded/inlined structs, optional pointers and interfaces, interfaces with uint8 and uint32 type codes, slices with array rules (must-occur, at-most-one-of-each-type, lexical order, no duplicates, auto-sort), maps incl. nested ones, a custom Serializable, an array of non-byte elements), written with the real Write* helpers into a stream.ByteBuffer, read back through the simulated reader and decoded again; oracle per item: no error, value equal (canonicalising comparer), stream fully consumed. In configuration chunk every Read call draws one of: full read / 1 byte / short read / zero-length read (at most 2 in a row) / final chunk together with io.EOF; counted as faults short-read, zero-read, eof-with-data. maporder: one zoo value (3 of 4 runs: a type with maps), validation on/off, Encode twice and JSONEncode twice in the same run - the rewritten serix iterates Go maps (range and reflect MapRange/MapKeys) in an order that is a recorded decision, so the calls see different orders; oracle: byte-identical output; then Decode / JSONDecode and comparison with the expected value as workload. distinct = distinct (script, chunking schedule, event log) hash; every run is non-trivial (each draws a value)",
-		Real: []string{"serializer/stream (read.go, write.go, byte_buffer.go, byte_reader.go, offset.go)", "serializer/serix Encode/Decode/MapEncode/JSONEncode/JSONDecode with one API instance, 16 registered type settings and 2 interface registries", "serializer.Serializer/Deserializer underneath", "ds/orderedmap (registries)"},
+		Rule:  "stream: each run picks ONE helper family (Read[T] for the 12 scalar/array types, ReadBytes, ReadBytesWithSize x4 prefix widths, ReadObject, ReadObjectWithSize x3, ReadCollection x4 and PeekSize+ReadCollection x4 with Read[uint16|uint64] elements, ReadObjectFromReader, or the ByteBuffer Write/Seek model) and 1-3 values; byte payloads and objects are serix encodings of values drawn from a 14-type zoo (scalars incl. floats/NaN, strings and byte slices with uint8/16/32 prefixes and bounds, byte arrays with and without type code, big.Int, time.Time, embedded/inlined structs, optional pointers and interfaces, interfaces with uint8 and uint32 type codes, slices with array rules (must-occur, at-most-one-of-each-type, lexical order, no duplicates, auto-sort), maps incl. nested ones, a custom Serializable, an array of non-byte elements), written with the real Write* helpers into a stream.ByteBuffer, read back through the simulated reader and decoded again; oracle per item: no error, value equal (canonicalising comparer), stream fully consumed. In configuration chunk every Read call draws one of: full read / 1 byte / short read / zero-length read (at most 2 in a row) / final chunk together with io.EOF; counted as faults short-read, zero-read, eof-with-data. maporder: one zoo value (3 of 4 runs: a type with maps), validation on/off, Encode twice and JSONEncode twice in the same run - the rewritten serix iterates Go maps (range and reflect MapRange/MapKeys) in an order that is a recorded decision, so the calls see different orders; oracle: byte-identical output; then Decode / JSONDecode and comparison with the expected value as workload. distinct = distinct (script, chunking schedule, event log) hash; every run is non-trivial (each draws a value)",
+		Real:  []string{"serializer/stream (read.go, write.go, byte_buffer.go, byte_reader.go, offset.go)", "serializer/serix Encode/Decode/MapEncode/JSONEncode/JSONDecode with one API instance, 16 registered type settings and 2 interface registries", "serializer.Serializer/Deserializer underneath", "ds/orderedmap (registries)"},
 		Stubs: append([]string{"io.Reader / io.ReadSeeker under the Read* helpers (simio: decision-driven chunking; bytes.Reader semantics in configuration nochunk)", "Go map iteration order inside serix (simrt.MapKeys / ReflectMapRange: recorded decision)"}, commonStubs...),
 		Assume: []string{
 			"restricted claim: what is decided is (a) stream helper pairs under all generated read-chunkings and (b) independence of Encode/JSONEncode output from map iteration order; the serix/JSON round trip of a value as such is a pure function of the value - it runs here as workload on generated values (sampled, not exhaustive) and its verdict does not depend on any fault or schedule",
